@@ -11,7 +11,7 @@ META = dict(
           "bootstrap_stl.hpp) shows each member with a std:: precondition guarded [stl_guards_complete]; with those guards every Vector step either has "
           "exactly the std:: effect and result or raises and leaves the container unchanged, for every index/position incl. negative, =size, >size and "
           "empty containers [vec_step_refines_std, vec_step_guards], hence no operation sequence reaches undefined behaviour [vec_run_never_ub]; the "
-          "insert_at/erase_at guards accept exactly the defined positions; range views keep b<=e<=size and read inside [b,e) [range_inv]; Map steps are "
+          "insert_at/erase_at guards accept exactly the defined positions; range views keep b<=e<=size and read inside [b,e) [range_inv]; string find returns npos exactly when the needle occurs nowhere at or after the position, and otherwise the FIRST such index, with the match wholly inside the string [strFind_spec, firstIdx_spec], rfind symmetrically the LAST index up to the position [strRfind_spec, lastIdx_spec]; Map steps are "
           "total. The model and the std:: spec are run in lock step against the real engine (ASan+UBSan) on generated op sequences, comparing result, "
           "exception and full contents after every step. The string find family (one-argument prelude wrappers and three-argument forms) is an executable model checked by correspondence and by python's str.find/rfind; Pair is covered by the census only."),
     note=("Trusted: Lean kernel, extract/e_stl.py (recognises guard idioms), Spec/Stl.lean (std:: semantics over lists), harness/stl.cpp, sanitizers. "
